@@ -27,6 +27,10 @@ const CAP: usize = 64;
 static mut LOG: [Ev; CAP] = [Ev { id: 0, kind: 0, region: 0, job: 0, pool: 0 }; CAP];
 static mut NLOG: usize = 0;
 
+pub fn log_event(id: usize, kind: u8) {
+    log(id, kind)
+}
+
 fn log(id: usize, kind: u8) {
     let (region, job, pool) = rayon::model_position();
     unsafe {
